@@ -267,6 +267,13 @@ def step (g : Group) (ws : List String) : Group × String :=
   match ws with
   | "rx" :: idx :: rest => rxStep g idx rest
   | ["hs", idx, cfg, req, end_] => (g, hsStep idx cfg req end_)
+  | ["burst", idx, entry, n, end_] =>
+    if !(entry == "adopt" || entry == "listener") || !(end_ == "drop" || end_ == "close" || end_ == "mix") then (g, idx ++ " bad-op") else
+    -- n connections minted concurrently: ids from the shared counter, each connection its own lifecycle
+    let n := natOf n
+    let ids := mintIds 0 n
+    let distinct := Gen.Lifecycle.peerIdFetchAdd && ids.eraseDups.length == n
+    (g, s!"{idx} ids={if distinct then "distinct" else "collide"} live={ids.length}/{n} disc={ids.length}x1 after=empty")
   | ["group", _, entry, nconn, nctx, ndisc, reg, cap, mode, _nctxRegistered, regpos] =>
     ({ entry, nconn := natOf nconn, nctx := natOf nctx, ndisc := natOf ndisc, reg := natOf reg, cap := natOf cap, mode,
        regpos := natOf regpos }, "")
